@@ -67,18 +67,20 @@ def construct(cls, f, k, mode, seed=0):
     torch.manual_seed(seed)
     C = _cls(cls)
     if cls == 'LULinear':
-        return C(f, identity_init=mode)
+        return C(f, identity_init=False, eps=0.1) if mode == 'eps0.1' else C(f, identity_init=mode)
     if cls == 'QRLinear':
         return C(f, k)
     if cls == 'SVDLinear':
-        return C(f, k, identity_init=mode)
+        return C(f, k, identity_init=False, eps=0.1) if mode == 'eps0.1' else C(f, k, identity_init=mode)
     if cls == 'NaiveLinear':
         return C(f, orthogonal_initialization=mode)
     return C(f, k)
 
 
 def modes(cls):
-    return [True, False] if cls in ('LULinear', 'SVDLinear', 'NaiveLinear') else [None]
+    if cls in ('LULinear', 'SVDLinear'):
+        return [True, False, 'eps0.1']      # identity initialisation on / off; a non-default floor of the diagonal
+    return [True, False] if cls == 'NaiveLinear' else [None]
 
 
 def counts(cls):
